@@ -12,6 +12,7 @@ CONSTANTS
   ArmLate = {}
   RegCtxs = {"plain", "guard", "handler"}
   ResCtxs = {"plain", "guard", "handler", "scope", "local"}
+  FactoryFail = {}
   SkipUnwinding = {"mkprom"}
   ArgsByRef = FALSE
 INVARIANTS TypeOK CallbackOnce RightOutcome HelperFreedOnce ConvertedValueOrException PublishedResumable ArgsAsPassed NoStuckState
